@@ -10,7 +10,8 @@
   Set-Cookie: `set_cookie_header_roundtrip`, `set_cookie_roundtrip`.
   Query view: `query_view_roundtrip` (urllib's urlencode / parse_qsl as parameters with the law parse_qsl (urlencode ps) = ps).
   Multipart: the full statement `MultipartRoundtrips` is false for the code — `multipart_roundtrip_counterexample` (F-C34a);
-  `multipart_roundtrip_partial` proves the round trip under the guards (induction over the part list).
+  `multipart_roundtrip_partial` proves the round trip under the guards (induction over the part list); `noEarly_piece` derives its
+  delimiter guard and `multipart_roundtrip` states every guard on the input (key/value/content type do not contain `--boundary`).
 -/
 import MitmVerif.Model.C34
 namespace MitmVerif.Props.C34
@@ -793,6 +794,151 @@ theorem multipart_roundtrip_partial (b : Bytes) (parts : List (Bytes × Bytes ×
     rw [hmap, collect_pieces _ [some none] [] (by simp [collect])]
     simp
 
+/-! #### the delimiter guard, derived from "key, value and content type do not contain the delimiter" -/
+
+/-- `sep` occurs nowhere in `x` (the meaning of `b"--" + boundary not in x`) -/
+def NoOccur (sep : Bytes) : Bytes → Prop
+  | [] => True
+  | c :: x => sep.isPrefixOf (c :: x) = false ∧ NoOccur sep x
+
+private theorem prefix_through (sep : Bytes) : ∀ (s : Bytes) (d : UInt8) (y : Bytes),
+    sep.isPrefixOf (s ++ d :: y) = true → sep.isPrefixOf s = true ∨ d ∈ sep := by
+  induction sep with
+  | nil => intro s d y _; left; simp
+  | cons a sep ih =>
+    intro s d y h
+    cases s with
+    | nil =>
+      simp only [List.nil_append, List.isPrefixOf, Bool.and_eq_true, beq_iff_eq] at h
+      right; simp [h.1]
+    | cons x s =>
+      simp only [List.cons_append, List.isPrefixOf, Bool.and_eq_true, beq_iff_eq] at h
+      rcases ih s d y h.2 with h' | h'
+      · left; simp [List.isPrefixOf, h.1, h']
+      · right; exact List.mem_cons_of_mem _ h'
+
+/-- a segment free of the delimiter, followed by a character the delimiter does not contain, cannot host the start of one -/
+private theorem noEarly_seg (sep x : Bytes) (d : UInt8) (y : Bytes) (hd : d ∉ sep) (hx : NoOccur sep x)
+    (hr : NoEarly sep (d :: y)) : NoEarly sep (x ++ d :: y) := by
+  induction x with
+  | nil => simpa using hr
+  | cons c x ih =>
+    obtain ⟨h0, hx'⟩ := hx
+    refine ⟨?_, ih hx'⟩
+    show sep.isPrefixOf (c :: (x ++ d :: y) ++ sep) = false
+    cases hp : sep.isPrefixOf (c :: (x ++ d :: y) ++ sep) with
+    | false => rfl
+    | true =>
+      exfalso
+      have e : c :: (x ++ d :: y) ++ sep = (c :: x) ++ d :: (y ++ sep) := by simp
+      rw [e] at hp
+      rcases prefix_through sep (c :: x) d (y ++ sep) hp with h | h
+      · rw [h0] at h; cases h
+      · exact hd h
+
+private theorem noEarly_ne (b : Bytes) (c : UInt8) (p : Bytes) (hc : c ≠ 45) (h : NoEarly (45 :: 45 :: b) p) :
+    NoEarly (45 :: 45 :: b) (c :: p) := by
+  refine ⟨?_, h⟩
+  simp [List.isPrefixOf, Ne.symm hc]
+
+private theorem noEarly_dash (b : Bytes) (c : UInt8) (p : Bytes) (hc : c ≠ 45) (h : NoEarly (45 :: 45 :: b) (c :: p)) :
+    NoEarly (45 :: 45 :: b) (45 :: c :: p) := by
+  refine ⟨?_, h⟩
+  simp [List.isPrefixOf, Ne.symm hc]
+
+/-- **the guard of `multipart_roundtrip_partial`, derived.**  If the boundary contains no CR, no double quote and no blank, and the
+    delimiter `--boundary` occurs neither in the key nor in the value nor in the guessed content type, then it does not start
+    anywhere inside the written part. -/
+theorem noEarly_piece (b k v c : Bytes) (hb13 : 13 ∉ b) (hb34 : 34 ∉ b)
+    (hk : NoOccur (delim b) k) (hv : NoOccur (delim b) v) (hc : NoOccur (delim b) c) :
+    NoEarly (delim b) (piece k v c) := by
+  have hd : delim b = 45 :: 45 :: b := by simp [delim, B_dd]
+  rw [hd] at hk hv hc ⊢
+  have n13 : (13 : UInt8) ∉ (45 :: 45 :: b) := by
+    simp only [List.mem_cons, not_or]; exact ⟨by decide, by decide, hb13⟩
+  have n34 : (34 : UInt8) ∉ (45 :: 45 :: b) := by
+    simp only [List.mem_cons, not_or]; exact ⟨by decide, by decide, hb34⟩
+  -- the written part, with the fixed texts spelled out
+  have e : piece k v c = [13, 10] ++ ([67, 111, 110, 116, 101, 110, 116, 45, 68, 105, 115, 112, 111, 115, 105, 116, 105, 111, 110, 58, 32,
+      102, 111, 114, 109, 45, 100, 97, 116, 97, 59, 32, 110, 97, 109, 101, 61, 34] ++ (k ++ 34 :: ([13, 10] ++
+      ([67, 111, 110, 116, 101, 110, 116, 45, 84, 121, 112, 101, 58, 32] ++ (c ++ 13 :: ([10, 13, 10] ++ (v ++ 13 :: [10, 13, 10]))))))) := by
+    simp [piece, cdLine, ctLine, B_cd, B_ct]
+  rw [e]
+  -- from the end of the part backwards
+  have t4 : NoEarly (45 :: 45 :: b) (13 :: [10, 13, 10]) :=
+    noEarly_ne b 13 _ (by decide) (noEarly_ne b 10 _ (by decide) (noEarly_ne b 13 _ (by decide) (noEarly_ne b 10 _ (by decide) trivial)))
+  have tv := noEarly_seg (45 :: 45 :: b) v 13 [10, 13, 10] n13 hv t4
+  have t3 : NoEarly (45 :: 45 :: b) (13 :: ([10, 13, 10] ++ (v ++ 13 :: [10, 13, 10]))) :=
+    noEarly_ne b 13 _ (by decide) (noEarly_ne b 10 _ (by decide) (noEarly_ne b 13 _ (by decide) (noEarly_ne b 10 _ (by decide) tv)))
+  have tc := noEarly_seg (45 :: 45 :: b) c 13 _ n13 hc t3
+  -- "Content-Type: "
+  have tct : NoEarly (45 :: 45 :: b) ([67, 111, 110, 116, 101, 110, 116, 45, 84, 121, 112, 101, 58, 32] ++
+      (c ++ 13 :: ([10, 13, 10] ++ (v ++ 13 :: [10, 13, 10])))) := by
+    simp only [List.cons_append, List.nil_append]
+    exact noEarly_ne b 67 _ (by decide) (noEarly_ne b 111 _ (by decide) (noEarly_ne b 110 _ (by decide) (noEarly_ne b 116 _ (by decide)
+      (noEarly_ne b 101 _ (by decide) (noEarly_ne b 110 _ (by decide) (noEarly_ne b 116 _ (by decide) (noEarly_dash b 84 _ (by decide)
+      (noEarly_ne b 84 _ (by decide) (noEarly_ne b 121 _ (by decide) (noEarly_ne b 112 _ (by decide) (noEarly_ne b 101 _ (by decide)
+      (noEarly_ne b 58 _ (by decide) (noEarly_ne b 32 _ (by decide) tc)))))))))))))
+  have t2 : NoEarly (45 :: 45 :: b) (34 :: ([13, 10] ++ ([67, 111, 110, 116, 101, 110, 116, 45, 84, 121, 112, 101, 58, 32] ++
+      (c ++ 13 :: ([10, 13, 10] ++ (v ++ 13 :: [10, 13, 10])))))) := by
+    simp only [List.cons_append, List.nil_append] at tct ⊢
+    exact noEarly_ne b 34 _ (by decide) (noEarly_ne b 13 _ (by decide) (noEarly_ne b 10 _ (by decide) tct))
+  have tk := noEarly_seg (45 :: 45 :: b) k 34 _ n34 hk t2
+  simp only [List.cons_append, List.nil_append] at tk ⊢
+  -- CRLF + "Content-Disposition: form-data; name=\""
+  exact noEarly_ne b 13 _ (by decide) (noEarly_ne b 10 _ (by decide)
+    (noEarly_ne b 67 _ (by decide) (noEarly_ne b 111 _ (by decide) (noEarly_ne b 110 _ (by decide) (noEarly_ne b 116 _ (by decide)
+    (noEarly_ne b 101 _ (by decide) (noEarly_ne b 110 _ (by decide) (noEarly_ne b 116 _ (by decide) (noEarly_dash b 68 _ (by decide)
+    (noEarly_ne b 68 _ (by decide) (noEarly_ne b 105 _ (by decide) (noEarly_ne b 115 _ (by decide) (noEarly_ne b 112 _ (by decide)
+    (noEarly_ne b 111 _ (by decide) (noEarly_ne b 115 _ (by decide) (noEarly_ne b 105 _ (by decide) (noEarly_ne b 116 _ (by decide)
+    (noEarly_ne b 105 _ (by decide) (noEarly_ne b 111 _ (by decide) (noEarly_ne b 110 _ (by decide) (noEarly_ne b 58 _ (by decide)
+    (noEarly_ne b 32 _ (by decide) (noEarly_ne b 102 _ (by decide) (noEarly_ne b 111 _ (by decide) (noEarly_ne b 114 _ (by decide)
+    (noEarly_ne b 109 _ (by decide) (noEarly_dash b 100 _ (by decide) (noEarly_ne b 100 _ (by decide) (noEarly_ne b 97 _ (by decide)
+    (noEarly_ne b 116 _ (by decide) (noEarly_ne b 97 _ (by decide) (noEarly_ne b 59 _ (by decide) (noEarly_ne b 32 _ (by decide)
+    (noEarly_ne b 110 _ (by decide) (noEarly_ne b 97 _ (by decide) (noEarly_ne b 109 _ (by decide) (noEarly_ne b 101 _ (by decide)
+    (noEarly_ne b 61 _ (by decide) (noEarly_ne b 34 _ (by decide) tk)))))))))))))))))))))))))))))))))))))))
+
+/-- **C34 (multipart).** The round trip with every guard stated on the INPUT: a boundary that is non-empty and free of CR, LF-free
+    is not needed, free of double quotes; keys non-empty and free of `"`, CR, LF; values and guessed content types free of CR, LF;
+    and the delimiter `--boundary` occurring in no key, value or content type.  (The encoder's refusal and the "delimiter inside
+    the written part" guards of `multipart_roundtrip_partial` are derived.) -/
+theorem multipart_roundtrip (b : Bytes) (parts : List (Bytes × Bytes × Bytes))
+    (hb : b ≠ [] ∧ 13 ∉ b ∧ 34 ∉ b)
+    (hk : ∀ p ∈ parts, p.1 ≠ [] ∧ 34 ∉ p.1 ∧ 10 ∉ p.1 ∧ 13 ∉ p.1)
+    (hv : ∀ p ∈ parts, 10 ∉ p.2.1 ∧ 13 ∉ p.2.1)
+    (hc : ∀ p ∈ parts, 10 ∉ p.2.2 ∧ 13 ∉ p.2.2)
+    (hfree : ∀ p ∈ parts, NoOccur (delim b) p.1 ∧ NoOccur (delim b) p.2.1 ∧ NoOccur (delim b) p.2.2) :
+    ∃ body, encodeMultipart b parts = some body ∧
+      decodeMultipart b body = some (parts.map (fun p => (p.1, p.2.1))) := by
+  apply multipart_roundtrip_partial b parts ⟨hb.1, hb.2.1⟩ hk hv hc
+  · -- the encoder does not refuse: a value equal to the delimiter line would contain the delimiter
+    intro p hp
+    have hd : delim b = 45 :: 45 :: b := by simp [delim, B_dd]
+    obtain ⟨_, hvf, _⟩ := hfree p hp
+    have ne1 : ¬ p.2.1 = B "--" ++ b := by
+      intro e
+      have e' : p.2.1 = delim b := e
+      rw [e', hd] at hvf
+      have hs := isPrefixOf_self_append (45 :: 45 :: b) []
+      rw [List.append_nil] at hs
+      rw [hvf.1] at hs; cases hs
+    have ne2 : ¬ p.2.1 = B "--" ++ b ++ [10] := by
+      intro e
+      have : (10 : UInt8) ∈ p.2.1 := by rw [e]; simp
+      exact (hv p hp).1 this
+    unfold valueIsDelim
+    simp only [Bool.or_eq_false_iff, decide_eq_false_iff_not]
+    exact ⟨ne1, ne2⟩
+  · intro p hp
+    obtain ⟨a, b', c'⟩ := hfree p hp
+    exact noEarly_piece b p.1 p.2.1 p.2.2 hb.2.1 hb.2.2 a b' c'
+
+instance instDecNoOccur (sep : Bytes) : (x : Bytes) → Decidable (NoOccur sep x)
+  | [] => isTrue trivial
+  | c :: x =>
+    have := instDecNoOccur sep x
+    inferInstanceAs (Decidable (sep.isPrefixOf (c :: x) = false ∧ NoOccur sep x))
+
 instance instDecNoEarly (sep : Bytes) : (p : Bytes) → Decidable (NoEarly sep p)
   | [] => isTrue trivial
   | c :: p =>
@@ -804,6 +950,12 @@ example : ∃ body, encodeMultipart (B "----B1") [(B "a", B "x--y", B "text/plai
     decodeMultipart (B "----B1") body = some [(B "a", B "x--y"), (B "file", [])] :=
   multipart_roundtrip_partial (B "----B1") [(B "a", B "x--y", B "text/plain"), (B "file", [], B "text/plain")]
     (by decide +kernel) (by decide +kernel) (by decide +kernel) (by decide +kernel) (by decide +kernel) (by decide +kernel)
+
+/-- the input-level hypotheses of `multipart_roundtrip` are satisfiable (a value with dashes and with a shorter look-alike `--B1`) -/
+example : ∃ body, encodeMultipart (B "----B1") [(B "a", B "x--B1--y", B "text/plain"), (B "file", [], B "text/plain")] = some body ∧
+    decodeMultipart (B "----B1") body = some [(B "a", B "x--B1--y"), (B "file", [])] :=
+  multipart_roundtrip (B "----B1") [(B "a", B "x--B1--y", B "text/plain"), (B "file", [], B "text/plain")]
+    (by decide +kernel) (by decide +kernel) (by decide +kernel) (by decide +kernel) (by decide +kernel)
 
 /-- the guards are satisfiable, with two parts and a browser-style boundary -/
 example : ∃ body, encodeMultipart (B "----B1") [(B "a", B "x y", B "text/plain"), (B "file", [], B "text/plain")] = some body ∧
